@@ -657,7 +657,7 @@ fn mode_roundtrip(ctx: &mut Ctx, args: &Args, rng: &mut Rng, shard: (u64, u64)) 
         let which = rng.below(3);
         roundtrip_one(ctx, rng, F64, bits, which);
     }
-    for k in ["render.shortest", "render.fixed", "render.exact", "path.fast", "path.moderate_definite", "path.slow_neg", "path.slow_pos"] {
+    for k in ["layout.positional", "render.shortest", "render.fixed", "render.exact", "path.fast", "path.moderate_definite", "path.slow_neg", "path.slow_pos"] {
         ctx.rep.require(k);
     }
 }
@@ -669,10 +669,11 @@ fn roundtrip_one(ctx: &mut Ctx, rng: &mut Rng, fmt: Fmt, bits: u64, which: u64) 
         Case::new(b"", b"", 0, "RENDER_ZERO")
     } else {
         let sig = &sig[lz..];
-        // layout: scientific-like (d.ddd e X), integer-only, or fraction-only
         let tag = ["RENDER_SHORTEST", "RENDER_FIXED", "RENDER_EXACT"][which as usize];
-        let lay = rng.below(3);
-        match gen::place(sig, e10, if lay == 0 { 2 } else { lay - 1 }, rng.below(3) as usize, 1, tag) {
+        // layout: scientific-like (d.ddd e X), integer-only, fraction-only, or positional (as `{}` prints: exponent 0)
+        let lay = rng.below(4);
+        ctx.rep.count(["layout.scientific", "layout.int_only", "layout.frac_only", "layout.positional"][lay as usize]);
+        match gen::place(sig, e10, if lay == 0 { 2 } else if lay == 3 { 3 } else { lay - 1 }, rng.below(3) as usize, 1, tag) {
             Some(c) => c,
             None => return,
         }
@@ -1181,6 +1182,7 @@ fn spellings(rng: &mut Rng, sig: &[u8], e10: i64, out: &mut Vec<Case>) {
             0 => 0,
             1 => rng.range(1, 40) as usize,
             2 => 40,
+            3 if rng.chance(1, 8) => rng.range(41, 3000) as usize,
             _ => 0,
         }
     };
@@ -1206,8 +1208,8 @@ fn spellings(rng: &mut Rng, sig: &[u8], e10: i64, out: &mut Vec<Case>) {
         push(out, sig[..s].to_vec(), frac, e10 + (n - s) as i64, "SPLIT");
     }
     // digits moved into the exponent: integer gets j extra zeros
-    for j in [1usize, 2, 5, 19, 20, 40, 300, 800] {
-        if j > 40 && !rng.chance(1, 4) {
+    for j in [1usize, 2, 5, 19, 20, 40, 300, 800, 9_000, 100_000] {
+        if (j > 40 && !rng.chance(1, 4)) || (j > 800 && !rng.chance(1, 16)) {
             continue;
         }
         let mut int = sig.to_vec();
@@ -1216,8 +1218,8 @@ fn spellings(rng: &mut Rng, sig: &[u8], e10: i64, out: &mut Vec<Case>) {
         push(out, int, vec![b'0'; t], e10 - j as i64, "INT_ZEROS");
     }
     // empty integer, z leading zeros in the fraction
-    for z in [0usize, 1, 2, 18, 19, 20, 40, 400, 5000] {
-        if z > 40 && !rng.chance(1, 4) {
+    for z in [0usize, 1, 2, 18, 19, 20, 40, 400, 5000, 100_000] {
+        if (z > 40 && !rng.chance(1, 4)) || (z > 5000 && !rng.chance(1, 16)) {
             continue;
         }
         let mut frac = vec![b'0'; z];
@@ -1225,6 +1227,26 @@ fn spellings(rng: &mut Rng, sig: &[u8], e10: i64, out: &mut Vec<Case>) {
         let t = tz(rng);
         frac.resize(frac.len() + t, b'0');
         push(out, vec![], frac, e10 + (z + n) as i64, "FRAC_ZEROS");
+    }
+    // positional spelling (exponent 0), as `{}` would print the value
+    if e10 >= 0 && e10 <= 1200 {
+        let mut int = sig.to_vec();
+        int.resize(n + e10 as usize, b'0');
+        let t = tz(rng);
+        push(out, int, vec![b'0'; t], 0, "POSITIONAL");
+    } else if e10 < 0 && e10 >= -1500 {
+        let k = (-e10) as usize;
+        let t = tz(rng);
+        if k < n {
+            let mut frac = sig[n - k..].to_vec();
+            frac.resize(frac.len() + t, b'0');
+            push(out, sig[..n - k].to_vec(), frac, 0, "POSITIONAL");
+        } else {
+            let mut frac = vec![b'0'; k - n];
+            frac.extend_from_slice(sig);
+            frac.resize(frac.len() + t, b'0');
+            push(out, vec![], frac, 0, "POSITIONAL");
+        }
     }
     // appended fraction zeros 0..40 on one fixed split
     let s = rng.range(0, n as i64) as usize;
@@ -1257,8 +1279,11 @@ fn mode_resplit(ctx: &mut Ctx, _args: &Args, rng: &mut Rng) {
             _ => gen::g9(rng, fmt),
         };
         let d = base.dec();
-        if d.is_zero() || d.d.len() > 3000 {
+        if d.is_zero() || d.d.len() > 20_000 && !(d.d.len() <= 200_000 && rng.chance(1, 8)) {
             continue;
+        }
+        if d.d.len() > 3000 {
+            ctx.rep.count("bases.longer_than_3000_digits");
         }
         let (sig, e10) = d.digits_exp();
         let mut sp: Vec<Case> = Vec::new();
@@ -1319,7 +1344,7 @@ fn mode_resplit(ctx: &mut Ctx, _args: &Args, rng: &mut Rng) {
             ctx.rep.count("bases.with_tier_changes");
         }
     }
-    for k in ["bases", "spelling.SPLIT", "spelling.INT_ZEROS", "spelling.FRAC_ZEROS", "spelling.TRAILING_ZEROS", "bases.with_several_internal_routes", "bases.with_tier_changes", "path.slow_neg", "path.slow_pos", "path.fast"] {
+    for k in ["bases", "spelling.POSITIONAL", "bases.longer_than_3000_digits", "spelling.SPLIT", "spelling.INT_ZEROS", "spelling.FRAC_ZEROS", "spelling.TRAILING_ZEROS", "bases.with_several_internal_routes", "bases.with_tier_changes", "path.slow_neg", "path.slow_pos", "path.fast"] {
         ctx.rep.require(k);
     }
 }
